@@ -249,6 +249,25 @@ def set_order_uses(ff: FuncFlow) -> List[Tuple[ast.AST, str]]:
   return out
 
 
+def clamped_before_validation(ff: FuncFlow) -> List[Tuple[ast.AST, str]]:
+  """`p = min(p, ...)` / max / clip of a parameter that a later `if <test on p>: raise` validates: the check no longer sees what the
+  caller passed (a legal value can be clamped into the rejected range, an illegal one into the accepted range)."""
+  fi = ff.fi
+  out = []
+  for n in ff.cfg.nodes:
+    if n.kind != 'if' or not any(isinstance(s, ast.Raise) for s in n.ast.body):
+      continue
+    for x in ast.walk(n.ast.test):
+      if isinstance(x, ast.Name) and x.id in fi.params:
+        for d in ff.defs_for(x):
+          v = d.value
+          if d.kind == 'assign' and isinstance(v, ast.Call) and (ff.ext(v.func) or '').split('.')[-1] in ('min', 'max', 'minimum', 'maximum', 'clip') and any(
+              isinstance(y, ast.Name) and y.id == x.id for a in v.args for y in ast.walk(a)):
+            out.append((d.node.ast if d.node is not None else x, x.id))
+  seen = set()
+  return [(a, b) for a, b in out if not (id(a) in seen or seen.add(id(a)))]
+
+
 MEMO = {'functools.lru_cache', 'functools.cache'}
 
 
@@ -332,6 +351,10 @@ def check_lints(check, funcs, rule_prefix: str = ''):
       check.ob('R-CACHE', fi, '@' + txt(d)[:60], False,
                f'the memoised result depends on more than the arguments: {w} changes at run time (backend selection, configuration), so a '
                'cached result outlives the state it was built for', node=d, exact=True)
+    for st, pname in clamped_before_validation(ff):
+      check.ob('R-VALIDATE.clamped', fi, txt(st)[:70], False,
+               f'`{pname}` is clamped before the check that validates it: the check sees the clamped value, so an argument the function '
+               'documents as valid can be rejected (or an invalid one accepted)', node=st, exact=True)
     for x, what in set_order_uses(ff):
       check.ob('R-NONDET.set-order', fi, what, False,
                'a sequence whose order comes from a set: for str / bytes elements it changes with the interpreter\'s hash seed, so a restarted '
